@@ -16,7 +16,7 @@ EST_METHODS = _c02.EST_METHODS
 data = _c02.data
 
 # the opaque in-repo steps (assumed contracts) are shared with C02
-for _cls in (_c02.ConstraintKMeansAlgo, _c02.FitReglin, _c02.CloneFitted, _c02.AssertEqual, _c02.FitL1):
+for _cls in (_c02.ConstraintKMeansAlgo, _c02.FitReglin, _c02.CloneFitted, _c02.AssertEqual, _c02.SingleRunOpaque, _c02.ToleranceOpaque):
     contract(_cls.key, "C03", assumed=True)(type(_cls.__name__, (_cls,), {}))
 
 
@@ -36,7 +36,8 @@ def refit(base, fitted, caches=(), name=None):
 
 
 refit(_c02.ConstraintKMeansFit, ["labels_", "cluster_centers_", "inertia_", "n_iter_", "weights_", "cluster_centers_iter_"])
-refit(_c02.KMeansL1L2Fit, [])          # L1 branch is an opaque step here; L2 delegates to KMeans.fit
+refit(_c02.KMeansL1L2Fit, [])          # L2 delegates to KMeans.fit; the L1 branch is the summary of _fit_l1, proved just below
+refit(_c02.FitL1Frame, ["cluster_centers_", "labels_", "inertia_", "n_iter_"])   # the real loop over the runs: every fitted attribute is overwritten
 refit(_c02.IntervalFit, ["estimators_"])
 refit(_c02.QuantileFit, ["coef_", "intercept_", "n_iter_"])
 refit(_c02.CakFit, ["labels_", "clus_", "estimator_"])
